@@ -27,6 +27,30 @@
 namespace celma::container {
 
 
+namespace {
+
+
+/// Returns the size to which the bitset should grow so that the position
+/// \a pos can be accessed.
+///
+/// @param[in]  data  The vector that will be resized.
+/// @param[in]  pos   The position that should be accessed.
+/// @return  The new size of the vector.
+/// @throw  std::length_error if the position cannot be stored in a vector.
+size_t grownSize( const std::vector< bool>& data, size_t pos)
+{
+
+   // also makes sure that 'pos + 1' does not wrap around
+   if (pos >= data.max_size())
+      throw std::length_error( "position is too big for a dynamic bitset");
+
+   return (pos + 1) * 1.5;
+} // grownSize
+
+
+} // namespace
+
+
 
 /// Constructor.
 ///
@@ -192,7 +216,7 @@ DynamicBitset& DynamicBitset::set( size_t pos, bool value)
 {
 
    if (pos >= mData.size())
-      mData.resize( (pos + 1) * 1.5);
+      mData.resize( grownSize( mData, pos));
 
    mData[ pos] = value;
 
@@ -224,7 +248,7 @@ DynamicBitset& DynamicBitset::reset( size_t pos)
 {
 
    if (pos >= mData.size())
-      mData.resize( (pos + 1) * 1.5);
+      mData.resize( grownSize( mData, pos));
 
    mData[ pos] = false;
 
@@ -256,7 +280,7 @@ DynamicBitset& DynamicBitset::flip( size_t pos)
 {
 
    if (pos >= mData.size())
-      mData.resize( (pos + 1) * 1.5);
+      mData.resize( grownSize( mData, pos));
 
    mData[ pos] = !mData[ pos];
 
@@ -369,7 +393,7 @@ DynamicBitset::reference DynamicBitset::operator []( size_t pos) noexcept( true)
 {
 
    if (pos >= mData.size())
-      mData.resize( (pos + 1) * 1.5);
+      mData.resize( grownSize( mData, pos));
 
    return mData[ pos];
 } // DynamicBitset::operator []
